@@ -180,6 +180,35 @@ def names_in(e):
     return {n.id for n in ast.walk(e) if isinstance(n, ast.Name)}
 
 
+def _name_deps(fn):
+    """local name -> names its definitions mention (flow-insensitive)"""
+    defs = {}
+    for n in ast.walk(fn.node):
+        if isinstance(n, ast.Assign):
+            for t in n.targets:
+                for nm in ([t] if isinstance(t, ast.Name) else list(t.elts) if isinstance(t, ast.Tuple) else []):
+                    if isinstance(nm, ast.Name):
+                        defs.setdefault(nm.id, set()).update(names_in(n.value))
+        elif isinstance(n, (ast.For, ast.comprehension)):
+            for nm in ast.walk(n.target):
+                if isinstance(nm, ast.Name):
+                    defs.setdefault(nm.id, set()).update(names_in(n.iter))
+    return defs
+
+
+def _key_vars(fn, keyexpr, defs):
+    """the variables a memo key is made of: a local name used as key stands for what it was built from"""
+    out, work = set(), list(names_in(keyexpr))
+    while work:
+        x = work.pop()
+        if x in out:
+            continue
+        out.add(x)
+        if x not in fn.params:
+            work += list(defs.get(x, ()))
+    return out
+
+
 def r10_2(ctx):
     out = Outcome("R10.2", "memo tables: the stored value depends on the key variables and constants only, and is "
                            "immutable by construction or only read by every caller", floor=3)
@@ -202,7 +231,7 @@ def r10_2(ctx):
                         handled = True
                         names = {x.id for t in n.targets for x in ast.walk(t) if isinstance(x, ast.Name)}
                         muts = _mutations_of(fn, names)
-                        keyvars = names_in(n.value.args[0]) if n.value.args else set()
+                        keyvars = _key_vars(fn, n.value.args[0], _name_deps(fn)) if n.value.args else set()
                         if muts:
                             for q, where, what in muts:
                                 out.bad(q, f"mutates a memoised value of {cls}.{name}: {what}", where=where,
@@ -225,7 +254,7 @@ def r10_2(ctx):
             continue
         for fn, store in users:
             tgt = [t for t in store.targets if isinstance(t, ast.Subscript)][0]
-            keyvars = names_in(tgt.slice)
+            keyvars = _key_vars(fn, tgt.slice, _name_deps(fn))
             # every access of the table in this function must use the same key
             keys = {ast.dump(tgt.slice)}
             for n in ast.walk(fn.node):
